@@ -47,6 +47,8 @@ class Contract:
     at_yield: list[str] = field(default_factory=list)  # @contextmanager: clauses that must hold when the with-body starts
     guard: str = ''  # variants of one function told apart by a condition on the arguments: assumed for the variant's own proof, decided (forked) at call sites
     kwparam: str = ''  # name of the function's **kwargs parameter: keyword arguments outside `sig` are collected into it
+    varparam: str = ''  # name of the function's *args parameter: positional arguments beyond the named ones are collected into it (an array-backed list)
+    theories: list[str] = field(default_factory=list)  # optional trusted theories instantiated on the paths of this function (e.g. 'display_width')
 
     def __post_init__(self):
         # raises clauses may be tagged tuples like ensures; keep plain strings
@@ -80,6 +82,7 @@ class ContractRegistry:
         self.opaque_attrs: dict[tuple[str, str], tuple[str, str]] = {}
         self.exc_attrs: dict[str, str] = {}
         self.imports: dict[str, str] = {}
+        self.extern_funcs: dict[str, str] = {}  # imported name -> name of its model in pyvc/builtins_model.py (trusted, listed)
         self._force_inline: set[str] = set()
 
     def add(self, c: Contract):
@@ -160,6 +163,11 @@ def mk_symbolic(ip: Interp, sortname: str, hint: str):
         n = p.fresh(hint + '_n', z3.IntSort())
         p.assume(n >= 0)
         p.vars[hint] = ('arrlist', arr, n)
+        if el.startswith('arrlist['):
+            k = z3.Int('k!wf')
+            ax = z3.ForAll([k], S.rec_get(z3.Select(arr, k), 'n') >= 0)  # every inner list has a length
+            p.path_axioms.append(ax)
+            p.pc.append(ax)
         return ArrList(arr, n, el)
     if sortname.startswith('opaque:'):
         t = p.fresh(hint, z3.IntSort())
@@ -297,7 +305,9 @@ def coerce_arg(ip: Interp, v, sortname: str, n):
         if isinstance(v, FuncVal) or v is None:
             return v
         ip.oos(f'cannot pass {type(v).__name__} where a {gen} function is expected', n)
-    if sortname in ('arrstr', 'charset', 'None', 'char', 'any') or sortname.startswith(('arrlist[', 'opaque:', 'optfunc:', 'tuple[')):
+    if sortname.startswith('arrlist['):
+        return ip.to_arrlist(v, sortname[len('arrlist['):-1], n)
+    if sortname in ('arrstr', 'charset', 'None', 'char', 'any') or sortname.startswith(('opaque:', 'optfunc:', 'tuple[')):
         return v
     sortname = _split_overrides(sortname)[0]
     if sortname in ip.w.registry.classes and 'fields' in ip.w.registry.classes[sortname]:
@@ -324,6 +334,18 @@ def bind_params(ip: Interp, c: Contract, recv, args, kwargs, n) -> dict:
     if recv is not None and names and names[0] == 'self':
         vals = [recv, *vals]
     env = {}
+    if c.varparam:
+        # f(a, b, *rest): the positional arguments from the *args parameter's position on form one list
+        at = names.index(c.varparam)
+        elem = c.sig[c.varparam].strip()[len('arrlist['):-1]
+        es = S.sort_of(elem)
+        arr = ip.p.fresh('varargs_a', z3.ArraySort(z3.IntSort(), es))
+        extra_vals = vals[at:]
+        for j, x in enumerate(extra_vals):
+            if elem.startswith('arrlist['):
+                x = ip.to_arrlist(x, elem[len('arrlist['):-1], n)
+            arr = z3.Store(arr, j, ip.coerce_sort(x, es, n))
+        vals = vals[:at] + [ArrList(arr, z3.IntVal(len(extra_vals)), elem)]
     if len(vals) > len(names):
         ip.oos(f'call of {c.key}: too many positional arguments', n)
     for i, name in enumerate(names):
@@ -614,6 +636,7 @@ def verify_function(world: World, c: Contract, max_paths: int = 4000) -> Functio
             rep.detail = f'more than {max_paths} paths'
             break
         path = Path(world, decisions)
+        path.theories = set(c.theories)
         ip = Interp(path, rel, {}, cls=cls, fname=short)
         ip.contract = c
         ip.soft_safety = set(c.soft_safety)
@@ -651,6 +674,8 @@ def _run_path(ip: Interp, c: Contract, fn: ast.FunctionDef, cls):
     p = ip.p
     a = fn.args
     params = [x.arg for x in a.posonlyargs + a.args + a.kwonlyargs]
+    if a.vararg is not None:
+        params.append(a.vararg.arg)  # *tracks: one symbolic list
     if a.kwarg is not None:
         params.append(a.kwarg.arg)  # **settings: one symbolic mapping
     decs = [ast.unparse(d) for d in fn.decorator_list]
@@ -774,6 +799,8 @@ def _coerce_result(ip: Interp, result, ret: str, fn):
         return result
     if ret.startswith('tuple['):
         return result
+    if ret.startswith('arrlist['):
+        return ip.to_arrlist(result, ret[len('arrlist['):-1], fn)
     if isinstance(result, ZRec) and ret == 'Val':
         return ip.to_val(result, fn)
     if isinstance(result, (PRec, ZRec, ArrList, ArrStr, PyTuple, Opaque)):
